@@ -337,4 +337,393 @@ theorem selectVictim_spec {s : Sys} {cyc : List Nat} {v : Nat} (h : selectVictim
     obtain ⟨hma, hmc⟩ := mem_involved hm
     exact ⟨cv, hfound cv hm, hma, rfl, hmc, by simp, by simp⟩
 
+/-! ### the invariant `Kinv` for every operation, along histories -/
+
+theorem kinv_other {s s' : Sys} {op' : Nat} (hown : ∀ x, Owns s' op' x → Owns s op' x)
+    (hact : s'.active = s.active ∨ ∃ c2 : Ctx, c2.id ≠ op' ∧ s'.active = (s.setCtx c2).active)
+    (hk : Kinv s op') : Kinv s' op' := by
+  constructor
+  · intro c' hc' hid x hx
+    have hm : c' ∈ s.active := by
+      rcases hact with h | ⟨c2, hne, h⟩
+      · rw [h] at hc'; exact hc'
+      · rw [h] at hc'
+        rcases mem_setCtx hc' with rfl | ⟨hm, _⟩
+        · exact absurd hid hne
+        · exact hm
+    exact hk.listed c' hm hid x (hown x hx)
+  · intro hno x hx
+    apply hk.unlisted _ x (hown x hx)
+    intro c hc hcid
+    rcases hact with h | ⟨c2, _, h⟩
+    · exact hno c (h ▸ hc) hcid
+    · have : c.id ∈ s'.active.map (·.id) := by
+        rw [h, setCtx_ids]; exact List.mem_map.mpr ⟨c, hc, rfl⟩
+      obtain ⟨c', hc', hcc⟩ := List.mem_map.mp this
+      exact hno c' hc' (hcc.trans hcid)
+
+theorem owns_acquire_blocked {s : Sys} {c : Ctx} {r : Nat} {l : Lock} (hl : s.locks r = some l) (o x : Nat) :
+    Owns ({ s.setLock r { l with waiting := addWaiting l.waiting c.id c.prio } with
+      edges := addDep s.edges c.id (l.owner.getD 0) r }) o x ↔ Owns s o x := by
+  unfold Owns
+  by_cases hx : x = r
+  · subst hx; simp [Sys.setLock, hl]
+  · simp [Sys.setLock, hx]
+
+theorem owns_acquire_ok {s : Sys} {c : Ctx} {r : Nat} {l : Lock} (hl : s.locks r = some l)
+    (hres : (l.tryAcquire c.id c.prio).2 ≠ .blocked) (o x : Nat) :
+    Owns (acquire s c r).1 o x ↔ (x = r ∧ o = c.id) ∨ (x ≠ r ∧ Owns s o x) := by
+  rw [acquire_ok hl hres]
+  unfold Owns
+  by_cases hx : x = r
+  · subst hx
+    simp only [Sys.setCtx, Sys.setLock, if_true, Option.some.injEq, exists_eq_left', true_and, ne_eq, not_true,
+      false_and, or_false]
+    rw [tryAcquire_owner hres]
+    constructor
+    · intro h; exact (Option.some.inj h).symm
+    · intro h; rw [h]
+  · simp [Sys.setCtx, Sys.setLock, hx]
+
+theorem kinv_acquire_all {s : Sys} {c : Ctx} (hc : c ∈ s.active) (hk : ∀ op', Kinv s op') (r : Nat) (op' : Nat) :
+    Kinv (acquire s c r).1 op' := by
+  by_cases ho : op' = c.id
+  · subst ho
+    exact (inv1_acquire ⟨rfl, hk c.id |>.listed c hc rfl, hk c.id, ⟨c, hc, rfl⟩⟩ r).kinv
+  · cases hl : s.locks r with
+    | none => rw [acquire_unknown hl]; exact hk op'
+    | some l =>
+      by_cases hres : (l.tryAcquire c.id c.prio).2 = .blocked
+      · rw [acquire_blocked hl hres]
+        exact kinv_other (fun x hx => (owns_acquire_blocked hl op' x).mp hx) (Or.inl rfl) (hk op')
+      · refine kinv_other (s := s) (fun x hx => ?_) ?_ (hk op')
+        · rcases (owns_acquire_ok hl hres op' x).mp hx with ⟨_, h⟩ | ⟨_, h⟩
+          · exact absurd h ho
+          · exact h
+        · right
+          rw [acquire_ok hl hres]
+          exact ⟨{ c with acquired := addKey c.acquired r }, fun h => ho h.symm, rfl⟩
+
+theorem kinv_release_all {s : Sys} {c : Ctx} (hc : c ∈ s.active) (hk : ∀ op', Kinv s op') (r : Nat) (op' : Nat) :
+    Kinv (release s c r).1 op' := by
+  have hrel := (release_relStep s c r).1
+  by_cases h : r ∈ c.acquired ∧ Owns s c.id r
+  · obtain ⟨hr, l, hl, hol⟩ := h
+    by_cases ho : op' = c.id
+    · subst ho
+      have htr := (hk c.id).listed c hc rfl
+      by_cases hh : l.hold ≤ 1
+      · rw [release_last hr hl hol hh] at hrel ⊢
+        have ht : Tracked (({ s.setLock r l.freed with edges := removeAllFor s.edges c.id }).setCtx
+            { c with acquired := c.acquired.erase r }) c.id { c with acquired := c.acquired.erase r } := by
+          intro x hx
+          have hx0 := htr x (hrel.owns hx)
+          have hne : x ≠ r := by
+            rintro rfl
+            obtain ⟨l', hl', ho'⟩ := hx
+            simp [Sys.setCtx, Sys.setLock, Lock.freed] at hl'
+            subst hl'; simp at ho'
+          exact (List.mem_erase_of_ne hne).mpr hx0
+        constructor
+        · intro c' hc' hid'
+          rcases mem_setCtx hc' with rfl | ⟨_, hne⟩
+          · exact ht
+          · exact absurd hid' hne
+        · intro hno
+          obtain ⟨c0, hc0, hid0⟩ := listed_setCtx (c2 := { c with acquired := c.acquired.erase r })
+            (s := { s.setLock r l.freed with edges := removeAllFor s.edges c.id }) ⟨c, hc, rfl⟩
+          exact absurd hid0 (hno c0 hc0)
+      · rw [release_more hr hl hol hh] at hrel ⊢
+        have ht : Tracked (({ s.setLock r { l with hold := l.hold - 1 } with
+            edges := removeAllFor s.edges c.id }).setCtx c) c.id c := fun x hx => htr x (hrel.owns hx)
+        constructor
+        · intro c' hc' hid'
+          rcases mem_setCtx hc' with rfl | ⟨_, hne⟩
+          · exact ht
+          · exact absurd hid' hne
+        · intro hno
+          obtain ⟨c0, hc0, hid0⟩ := listed_setCtx (c2 := c)
+            (s := { s.setLock r { l with hold := l.hold - 1 } with edges := removeAllFor s.edges c.id }) ⟨c, hc, rfl⟩
+          exact absurd hid0 (hno c0 hc0)
+    · refine kinv_other (s := s) (fun x hx => hrel.owns hx) ?_ (hk op')
+      by_cases hh : l.hold ≤ 1
+      · rw [release_last hr hl hol hh]
+        exact Or.inr ⟨{ c with acquired := c.acquired.erase r }, fun h => ho h.symm, rfl⟩
+      · rw [release_more hr hl hol hh]
+        exact Or.inr ⟨c, fun h => ho h.symm, rfl⟩
+  · rw [release_not_owned h]; exact hk op'
+
+theorem kinv_start_fresh {s : Sys} {o : Nat} (hf : s.ctx? o = none) (hk : ∀ op', Kinv s op') (p : Int) (op' : Nat) :
+    Kinv (s.start o p).1 op' := by
+  have hnone := ctx?_none hf
+  have hany : s.active.any (fun x => x.id = o) = false := by
+    simp only [List.any_eq_false, decide_eq_true_eq]
+    exact hnone
+  unfold Sys.start
+  simp only [hany]
+  constructor
+  · intro c hc hid x hx
+    rcases List.mem_append.mp hc with h | h
+    · exact (hk op').listed c h hid x hx
+    · simp only [List.mem_singleton] at h
+      subst h
+      simp only at hid
+      subst hid
+      exact absurd hx ((hk _).unlisted hnone x)
+  · intro hno x hx
+    exact (hk op').unlisted (fun c hc => hno c (List.mem_append_left _ hc)) x hx
+
+/-! ### exactness of the recorded graph outside the trigger -/
+
+/-- `w` waits for `r`, which `b` owns: an edge of the reference wait-for graph -/
+def Ref (h : HSt) (w b r : Nat) : Prop := (w, r) ∈ h.pend ∧ Owns h.sys b r ∧ b ≠ w
+
+theorem ownerOf_eq {s : Sys} {r y : Nat} : ownerOf s r = some y ↔ Owns s y r := by
+  unfold ownerOf Owns
+  cases s.locks r with
+  | none => simp
+  | some l => simp
+
+theorem mem_refEdges {h : HSt} {w b r : Nat} : (w, b, r) ∈ refEdges h ↔ Ref h w b r := by
+  unfold refEdges Ref
+  simp only [List.mem_filterMap]
+  constructor
+  · rintro ⟨e, he, hm⟩
+    cases ho : ownerOf h.sys e.2 with
+    | none => simp [ho] at hm
+    | some y =>
+      simp only [ho] at hm
+      split at hm
+      · cases hm
+      · rename_i hne
+        simp only [Option.some.injEq, Prod.mk.injEq] at hm
+        obtain ⟨rfl, rfl, rfl⟩ := hm
+        exact ⟨he, ownerOf_eq.mp ho, hne⟩
+  · rintro ⟨hp, ho, hne⟩
+    refine ⟨(w, r), hp, ?_⟩
+    simp [ownerOf_eq.mpr ho, hne]
+
+theorem owns_unique {s : Sys} {a b r : Nat} (ha : Owns s a r) (hb : Owns s b r) : a = b := by
+  obtain ⟨l, hl, ho⟩ := ha
+  obtain ⟨l', hl', ho'⟩ := hb
+  rw [hl] at hl'; cases hl'
+  rw [ho] at ho'; exact Option.some.inj ho'
+
+/-- the recorded graph is the reference graph -/
+def Exact (h : HSt) : Prop := ∀ w b r, HasEdge h.sys.edges w b r ↔ Ref h w b r
+
+/-- what holds at every point of a trigger-free history -/
+structure Good (h : HSt) : Prop where
+  kinv : ∀ op, Kinv h.sys op
+  exact : Exact h
+
+theorem any_false {α : Type} {l : List α} {p : α → Bool} (h : l.any p = false) : ∀ e ∈ l, p e = false := by
+  intro e he
+  have := List.any_eq_false.mp h e he
+  simpa using this
+
+theorem good_step {h : HSt} (hg : Good h) (op : HOp) (ht : trig h op = false) (hf : freshOk h op = true) :
+    Good (hstep h op) := by
+  cases op with
+  | start o p =>
+    have hfr : h.sys.ctx? o = none := by simpa [freshOk] using hf
+    refine ⟨fun op' => kinv_start_fresh hfr hg.kinv p op', ?_⟩
+    intro w b r
+    have hs : ∀ x y, Owns (h.sys.start o p).1 x y ↔ Owns h.sys x y := by
+      intro x y; unfold Sys.start; simp only; split <;> exact Iff.rfl
+    have he : (h.sys.start o p).1.edges = h.sys.edges := by unfold Sys.start; simp only; split <;> rfl
+    simp only [hstep, Ref]
+    rw [he, hs]
+    exact hg.exact w b r
+  | finish o =>
+    simp only [hstep]
+    cases hc : h.sys.ctx? o with
+    | none => exact hg
+    | some c =>
+      simp only
+      obtain ⟨hcm, hcid⟩ := ctx?_some hc
+      have hfin := finish_finStep h.sys c
+      have hfree := finish_frees (s := h.sys) (c := c) (by rw [hcid]; exact (hg.kinv o).listed c hcm hcid)
+      rw [hcid] at hfin hfree
+      refine ⟨fun op' => ?_, ?_⟩
+      · have := kinv_abortById (hg.kinv op') o
+        unfold abortById at this
+        rw [hc] at this
+        exact this
+      · intro w b r
+        rw [hfin.edges]
+        simp only [Ref, List.mem_filter, decide_eq_true_eq]
+        constructor
+        · rintro ⟨hw, hb, he⟩
+          obtain ⟨hp, ho, hne⟩ := (hg.exact w b r).mp he
+          exact ⟨⟨hp, hw⟩, hfin.owns_other hb ho, hne⟩
+        · rintro ⟨⟨hp, hw⟩, ho, hne⟩
+          have hb : b ≠ o := by rintro rfl; exact hfree r ho
+          exact ⟨hw, hb, (hg.exact w b r).mpr ⟨hp, hfin.owns ho, hne⟩⟩
+  | rel o r =>
+    simp only [hstep]
+    cases hc : h.sys.ctx? o with
+    | none => exact hg
+    | some c =>
+      simp only
+      obtain ⟨hcm, hcid⟩ := ctx?_some hc
+      refine ⟨fun op' => kinv_release_all hcm hg.kinv r op', ?_⟩
+      have hrel := (release_relStep h.sys c r).1
+      by_cases hown : r ∈ c.acquired ∧ Owns h.sys c.id r
+      · -- the release succeeds: no trigger means nobody's pending wait is affected
+        have hres : (release h.sys c r).2.2 = true := by
+          obtain ⟨hr, l, hl, hol⟩ := hown
+          by_cases hh : l.hold ≤ 1
+          · rw [release_last hr hl hol hh]
+          · rw [release_more hr hl hol hh]
+        have hedges : ∀ w b x, HasEdge (release h.sys c r).1.edges w b x ↔
+            (w ≠ o ∧ b ≠ o ∧ HasEdge h.sys.edges w b x) := by
+          obtain ⟨hr, l, hl, hol⟩ := hown
+          intro w b x
+          by_cases hh : l.hold ≤ 1
+          · rw [release_last hr hl hol hh, ← hcid]; exact hasEdge_removeAllFor
+          · rw [release_more hr hl hol hh, ← hcid]; exact hasEdge_removeAllFor
+        simp only [trig, hc] at ht
+        generalize hq : release h.sys c r = q at ht hres hrel hedges
+        obtain ⟨s', c', ok⟩ := q
+        simp only at hres hrel hedges
+        subst hres
+        simp only [Bool.or_eq_false_iff] at ht
+        have ht1 := any_false ht.1
+        have ht2 := any_false ht.2
+        intro w b x
+        rw [hedges]
+        simp only [Ref]
+        rw [hcid] at hrel
+        constructor
+        · rintro ⟨hw, hb, he⟩
+          obtain ⟨hp, ho, hne⟩ := (hg.exact w b x).mp he
+          exact ⟨hp, hrel.owns_other hb ho, hne⟩
+        · rintro ⟨hp, ho, hne⟩
+          have hw : w ≠ o := by
+            rintro rfl
+            have := ht1 (w, x) hp
+            simp at this
+          have hb : b ≠ o := by
+            rintro rfl
+            have := ht2 (w, x) hp
+            simp [hw, ownerOf_eq.mpr ho] at this
+          exact ⟨hw, hb, (hg.exact w b x).mpr ⟨hp, hrel.owns ho, hne⟩⟩
+      · rw [release_not_owned hown]
+        exact hg.exact
+  | acq o r =>
+    simp only [hstep]
+    cases hc : h.sys.ctx? o with
+    | none => exact hg
+    | some c =>
+      simp only
+      obtain ⟨hcm, hcid⟩ := ctx?_some hc
+      have hkall := fun op' => kinv_acquire_all hcm hg.kinv r op'
+      cases hl : h.sys.locks r with
+      | none =>
+        rw [acquire_unknown hl] at hkall ⊢
+        exact hg
+      | some l =>
+        by_cases hres : (l.tryAcquire c.id c.prio).2 = .blocked
+        · -- BLOCKED: one true edge is added on both sides
+          rw [acquire_blocked hl hres] at hkall ⊢
+          simp only
+          refine ⟨hkall, ?_⟩
+          obtain ⟨_, hne, hnn⟩ := tryAcquire_blocked hres
+          have hb : l.owner = some (l.owner.getD 0) := by
+            cases ho : l.owner with
+            | none => exact absurd ho hnn
+            | some y => rfl
+          have hown0 : Owns h.sys (l.owner.getD 0) r := ⟨l, hl, hb⟩
+          intro w b x
+          rw [hasEdge_addDep]
+          simp only [Ref]
+          rw [owns_acquire_blocked hl, hcid]
+          have hpend : (w, x) ∈ (if h.pend.contains (o, r) = true then h.pend else h.pend ++ [(o, r)]) ↔
+              (w, x) ∈ h.pend ∨ (w = o ∧ x = r) := by
+            split
+            · rename_i hcn
+              have : (o, r) ∈ h.pend := by simpa using hcn
+              constructor
+              · exact Or.inl
+              · rintro (hh | ⟨rfl, rfl⟩)
+                · exact hh
+                · exact this
+            · simp
+          rw [hpend]
+          constructor
+          · rintro (he | ⟨rfl, rfl, rfl⟩)
+            · obtain ⟨hp, ho, hn⟩ := (hg.exact w b x).mp he
+              exact ⟨Or.inl hp, ho, hn⟩
+            · exact ⟨Or.inr ⟨rfl, rfl⟩, hown0, fun hy => hne (hb.trans (congrArg some (hy.trans hcid.symm)))⟩
+          · rintro ⟨hp | ⟨rfl, rfl⟩, ho, hn⟩
+            · exact Or.inl ((hg.exact w b x).mpr ⟨hp, ho, hn⟩)
+            · exact Or.inr ⟨rfl, owns_unique ho hown0, rfl⟩
+        · -- ACQUIRED / REENTRANT / PREEMPTED without a trigger event
+          have hres' : ∃ res, (acquire h.sys c r).2.2 = some res ∧ res ≠ .blocked := by
+            rw [acquire_ok hl hres]; exact ⟨_, rfl, hres⟩
+          have hedges : ∀ w b x, HasEdge (acquire h.sys c r).1.edges w b x ↔
+              (w ≠ o ∧ b ≠ o ∧ HasEdge h.sys.edges w b x) := by
+            intro w b x
+            rw [acquire_ok hl hres, ← hcid]; exact hasEdge_removeAllFor
+          have howns := owns_acquire_ok hl hres
+          simp only [trig, hc] at ht
+          generalize hq : acquire h.sys c r = q at ht hres' hedges howns hkall
+          obtain ⟨s', c', res⟩ := q
+          obtain ⟨res0, hr0, hnb⟩ := hres'
+          simp only at hr0 hedges howns hkall
+          subst hr0
+          have ht' : (h.pend.any (fun e => e.1 = o && e.2 ≠ r) ||
+              h.pend.any (fun e => e.1 ≠ o && ownerOf h.sys e.2 = some o) ||
+              h.pend.any (fun e => e.1 ≠ o && e.2 = r)) = false := by
+            cases res0 with
+            | blocked => exact absurd rfl hnb
+            | acquired => simpa using ht
+            | reentrant => simpa using ht
+            | preempted => simpa using ht
+          simp only [Bool.or_eq_false_iff] at ht'
+          have ht1 := any_false ht'.1.1
+          have ht2 := any_false ht'.1.2
+          have ht3 := any_false ht'.2
+          have hfinal : Good { sys := s', pend := h.pend.filter (fun e => e ≠ (o, r)) } := by
+            refine ⟨hkall, ?_⟩
+            intro w b x
+            rw [hedges]
+            simp only [Ref, List.mem_filter, decide_eq_true_eq]
+            rw [howns, hcid]
+            constructor
+            · rintro ⟨hw, hb, he⟩
+              obtain ⟨hp, ho, hn⟩ := (hg.exact w b x).mp he
+              have hxr : x ≠ r := by
+                rintro rfl
+                have := ht3 (w, x) hp
+                simp [hw] at this
+              exact ⟨⟨hp, by simp [hw]⟩, Or.inr ⟨hxr, ho⟩, hn⟩
+            · rintro ⟨⟨hp, hne⟩, ho, hn⟩
+              have hw : w ≠ o := by
+                rintro rfl
+                have hx : x ≠ r := by rintro rfl; exact hne rfl
+                have := ht1 (w, x) hp
+                simp [hx] at this
+              rcases ho with ⟨rfl, rfl⟩ | ⟨hxr, ho⟩
+              · have := ht3 (w, x) hp
+                simp [hw] at this
+              · have hb : b ≠ o := by
+                  rintro rfl
+                  have := ht2 (w, x) hp
+                  simp [hw, ownerOf_eq.mpr ho] at this
+                exact ⟨hw, hb, (hg.exact w b x).mpr ⟨hp, ho, hn⟩⟩
+          cases res0 with
+          | blocked => exact absurd rfl hnb
+          | acquired => exact hfinal
+          | reentrant => exact hfinal
+          | preempted => exact hfinal
+
+theorem good_run : ∀ (ops : List HOp) {h : HSt}, Good h → TrigFree h ops → Good (hrun h ops)
+  | [], _, hg, _ => hg
+  | op :: ops, h, hg, ht => by
+    unfold hrun
+    simp only [List.foldl_cons]
+    exact good_run ops (good_step hg op ht.1 ht.2.1) ht.2.2
+
 end Operon.Coord
